@@ -1,12 +1,41 @@
 package check
 
 import (
+	"fmt"
+	"os"
+	"path/filepath"
+	"time"
+
 	"verif/harness/internal/gen"
 )
 
 // C11: events reach every listening catch event exactly once; delivery never blocks.
 func C11(c *Ctx) int {
 	fs, _ := LoadFindings()
+	// level M: EventInbox.tla -- ConsumeEvent forwarding into the bounded inboxes of start / throw /
+	// catch events whose run loops are not started, running or gone (cancel), 5 deliveries in
+	// flight, every interleaving; the structure the code has now, and the pinned one (bare sends)
+	// where TLC finds the blocked delivery of F12b / F29
+	for _, g := range []string{"TRUE", "FALSE"} {
+		dir := c.sub("eventinbox" + g)
+		os.WriteFile(filepath.Join(dir, "MCE.tla"), []byte("---- MODULE MCE ----\nEXTENDS EventInbox\nMCNodes == <<\"start\", \"throw\", \"catch\">>\n====\n"), 0o644)
+		cfg := fmt.Sprintf("SPECIFICATION Spec\nCONSTANTS\n  Nodes <- MCNodes\n  Cap = 3\n  Callers = {\"a\", \"b\", \"c\", \"d\", \"e\"}\n  Guarded = %s\n  MayCancel = TRUE\nINVARIANTS TypeOK NoStuckCaller\nPROPERTIES CallersReturn\nCHECK_DEADLOCK TRUE\n", g)
+		res, err := RunTLC(dir, "MCE", cfg, TLCOpts{Workers: 8, Timeout: 10 * time.Minute})
+		if err != nil {
+			c.Infraf("EventInbox.tla: %v", err)
+			continue
+		}
+		if g == "TRUE" {
+			if !res.OK {
+				c.Infraf("EventInbox.tla (guarded sends) is violated: %s", res.Violated)
+			}
+			c.States += res.Distinct
+			c.Transitions += res.Generated
+			c.Extra["eventinbox_states"] = res.Distinct
+		} else {
+			c.Extra["pinned_structure_counterexample_found_by_TLC"] = res.Violated
+		}
+	}
 	ps := gen.CatchShapes()
 	ps = append(ps, gen.ThrowShapes()...)
 	nd, capN := 4, 40
